@@ -12,6 +12,10 @@ CHECKS = {
    text="The normalisation algorithm is transcribed (Routing.Normalize) and TLC checks on every case that it preserves matching and is idempotent; the REAL admission plugin's Admit is run on every distinct rule and the stored rules are (a) compared real-matcher vs real-matcher over the whole request universe and (b) trace-validated by TLC under the documented semantics.",
    note="Request universe and rule space bounded as in C01.",
    technique="TLC invariant on transcribed normaliser + trace validation of the real plugin's output"),
+ "C20": dict(cat="model_checking", design="4/C20",
+   text="Registry.tla models one object's life through create/update/status-update with the L0 result operators; TLC checks 'generation = 1 + number of spec/annotation changes' and the separation clauses as invariants/action properties, enumerates every (kind, op, stored, submitted) case for replay into the REAL strategies (via rest.BeforeCreate/BeforeUpdate), and validates random op sequences executed on the real strategies as traces.",
+   note="Strategies are called as the generic registry store calls them, not through a running apiserver; abstract field values concretised on pointer/slice/nested/plain fields.",
+   technique="TLC state machine + exhaustive case table replayed into real strategies + TLC trace validation"),
 }
 
 NOT_YET = {}
